@@ -88,15 +88,17 @@ fn judge_plain(c: &Case, cfg: &OptCfg, r: &RunReport, st: &mut Stats) {
 
 pub fn probe_case(k: usize, d: f64, kt: f64, probes: u64, loops: u64, seed: u64) -> ScriptedCase {
     // wide bounds, small steps, interior start: no clamping, unique proposals
-    let init = vec![0.5; k];
-    let bounds = vec![(0., 1.); k];
+    // (range 2e6 with steps of 1e-6 of it: a random walk of 1e7 accepted unit moves stays far
+    // from the bounds)
+    let init = vec![0.; k];
+    let bounds = vec![(-1e6, 1e6); k];
     let steps = 3 * probes;
     let inner = (steps / loops.max(1)).max(3);
     ScriptedCase {
         init,
         bounds,
         script: Script::Probe { d: vec![d], inner, jam: vec![] },
-        cfg: OptCfg { steps, inner_steps: inner, kt_start: kt, kt_finish: None, kt_ratio: Some(0.), max_step_size: 0.01, seed, convergence: None },
+        cfg: OptCfg { steps, inner_steps: inner, kt_start: kt, kt_finish: None, kt_ratio: Some(0.), max_step_size: 1e-6, seed, convergence: None },
         via_api: false,
     }
 }
